@@ -6,4 +6,4 @@ CONSTANTS
   Mirror = FALSE
   MaxOps = 0
   ViewUniverse <- U_views_thorough
-  NumTrees = 8
+  NumTrees = 6
